@@ -120,14 +120,13 @@ func (k Keeper) IterateConsensusStates(
 	for ; iterator.Valid(); iterator.Next() {
 		key := iterator.Key()
 
-		keySplit := strings.Split(string(key), "/")
-		// consensus key is in the format "clients/<chainName>/consensusStates/<height>"
-		if len(keySplit) != 4 || keySplit[2] != string(host.KeyConsensusStatePrefix) {
+		// consensus key is in the format "clients/<chainName>/consensusStates/<height>", where
+		// <height> is 16 raw bytes (big-endian revision number and height) that may contain '/'
+		keySplit := strings.SplitN(string(key), "/", 4)
+		if len(keySplit) != 4 || keySplit[2] != string(host.KeyConsensusStatePrefix) || len(keySplit[3]) != 16 {
 			continue
 		}
 		chainName := keySplit[1]
-		//revinum := sdk.BigEndianToUint64(key[35:43])
-		//revihei := sdk.BigEndianToUint64(key[44:])
 		heightBytes := keySplit[3]
 		revisionUint64 := binary.BigEndian.Uint64([]byte(heightBytes[:8]))
 		heightUint64 := binary.BigEndian.Uint64([]byte(heightBytes[8:]))
